@@ -130,6 +130,34 @@ def one_setting(setting, ranges, emit, mode, write_csv):
         emit({"v": "viol", "b": b + "/rounding", "mech": f"{probs[0][0]}/{tag}", "what": f"{setting}: {probs[:2]}", "case": case})
     else:
         emit({"v": "held", "b": b + "/rounding", "sample": {"setting": setting, "mode": mode, "scale": scale, "width": width}})
+    # (2b) native float64 DataFrame input with many significant digits: stored value = shortest decimal text of the float, rounded to the scale
+    if width - scale >= 8 and scale >= 1:
+        import pandas as pd
+        fl = [1234567.1234567, 1234567.1234566, 0.1, 2.675, 987654.000001, -1234567.7654321]
+        k = "1234567.1234566"
+        df = pd.DataFrame({"Id_1": list(range(1, len(fl) + 1)), "Me_1": fl})
+        status, res = eng.call(eng.run, f"DS_s <- DS_1[calc Me_2 := Me_1 - {k}];", st, {"DS_1": df}, return_only_persistent=False)
+        bb = b + "/float64-frame"
+        if status == "exc":
+            name, code, _ = eng.exc_info(res)
+            emit({"v": "viol", "b": bb, "mech": f"float-frame-rejected/{name}/{tag}", "what": f"{setting}: float64 DataFrame input rejected: {name} {code}: {str(res)[:160]}", "case": case})
+        else:
+            got = {int(r[0]): r[1:] for r in eng.rows_of(res["DS_s"].data, ["Id_1", "Me_1", "Me_2"])}
+            bad = None
+            for i, x in enumerate(fl):
+                d = Decimal(repr(x))
+                cands = {d.quantize(q, rounding=ROUND_HALF_UP), d.quantize(q, rounding=ROUND_HALF_EVEN)}
+                kd = {Decimal(k).quantize(q, rounding=ROUND_HALF_UP), Decimal(k).quantize(q, rounding=ROUND_HALF_EVEN), Decimal(k)}   # whether a script constant is rounded to the scale is not documented
+                g = got.get(i + 1)
+                ok_in = g is not None and g[0] is not None and any(abs(g[0] - float(c)) <= max(tol, abs(float(c)) * 4e-16) for c in cands)
+                ok_diff = g is not None and g[1] is not None and any(abs(g[1] - float(c - kk)) <= max(tol, abs(float(c - kk)) * 4e-16) for c in cands for kk in kd)
+                if not ok_in or not ok_diff:
+                    bad = f"float {x!r}: stored {None if g is None else g[0]!r}, minus {k} = {None if g is None else g[1]!r}; expected {sorted(map(str, cands))} and the exact decimal difference at scale {scale}"
+                    break
+            if bad:
+                emit({"v": "viol", "b": bb, "mech": f"float64-input-not-stored-as-its-decimal-text/{tag}", "what": f"{setting}: {bad}", "case": case})
+            else:
+                emit({"v": "held", "b": bb})
     # (3) values using all integer digits fit; one digit more is rejected with a VTL input error
     intd = width - scale
     if 1 <= intd <= 18:
@@ -204,6 +232,9 @@ def run_shard(spec, emit):
     for i, s in enumerate(mine):
         apply_env(s)
         one_setting(s, ranges, emit, "in-process", write_csv)
+        if i % 2 == 0:
+            # the same setting again, unchanged: a setting's verdict must not depend on having been seen before
+            one_setting(s, ranges, emit, "in-process-repeated", write_csv)
         if i % 3 == 2:
             apply_env({})
             one_setting({}, ranges, emit, "in-process-after-unset", write_csv)
